@@ -5,17 +5,69 @@ package notifier
 import (
 	"encoding/hex"
 	"fmt"
+	"reflect"
 	"sort"
 	"strings"
+	"unsafe"
 )
 
-// VerifDump renders the three maps, the current batch, the level and the enabled flag canonically (C17 harness;
-// injected with -overlay, not part of the repository). idOf names a target.
+// VerifDump renders the registry of a notifier canonically: the name -> target -> priority map, the target -> names map,
+// the batch-target set, the current batch, the batch level and the enabled flag (C17 harness; injected with -overlay,
+// not part of the repository).  idOf names a target.
+//
+// The private fields are found BY TYPE through reflection, not by name, so renaming or regrouping them does not matter;
+// if the representation is not recognisable (a refactoring changed the types) the result is "" and the white-box
+// comparisons are skipped -- they are about representation, the property does not constrain it.
+// No lock is taken: the harness calls this only at quiescent points (after joining every goroutine).
 func (n *Notifier) VerifDump(idOf func(Target) int) string {
-	n.lock.RLock()
-	defer n.lock.RUnlock()
+	var (
+		prodMap  map[string]map[Target]int
+		nameMap  map[Target]map[string]bool
+		batchSet map[BatchTarget]bool
+		current  []BatchTarget
+		level    int
+		enabled  bool
+		found    [6]int
+	)
+	var walk func(v reflect.Value)
+	walk = func(v reflect.Value) {
+		for i := 0; i < v.NumField(); i++ {
+			f := v.Field(i)
+			p := reflect.NewAt(f.Type(), unsafe.Pointer(f.UnsafeAddr())).Interface()
+			switch x := p.(type) {
+			case *map[string]map[Target]int:
+				prodMap = *x
+				found[0]++
+			case *map[Target]map[string]bool:
+				nameMap = *x
+				found[1]++
+			case *map[BatchTarget]bool:
+				batchSet = *x
+				found[2]++
+			case *[]BatchTarget:
+				current = *x
+				found[3]++
+			case *int:
+				level = *x
+				found[4]++
+			case *bool:
+				enabled = *x
+				found[5]++
+			default:
+				if f.Kind() == reflect.Struct && f.Type().PkgPath() == reflect.TypeOf(*n).PkgPath() {
+					walk(f)
+				}
+			}
+		}
+	}
+	walk(reflect.ValueOf(n).Elem())
+	for _, c := range found {
+		if c != 1 {
+			return ""
+		}
+	}
 	var prod []string
-	for name, set := range n.productionMap {
+	for name, set := range prodMap {
 		if len(set) == 0 {
 			continue // an empty set is not a registration (whether it is deleted or kept is representation)
 		}
@@ -36,7 +88,7 @@ func (n *Notifier) VerifDump(idOf func(Target) int) string {
 	sort.Strings(prod)
 	var tids []int
 	nm := make(map[int][]string)
-	for t, names := range n.nameMap {
+	for t, names := range nameMap {
 		if len(names) == 0 {
 			continue
 		}
@@ -63,16 +115,16 @@ func (n *Notifier) VerifDump(idOf func(Target) int) string {
 		return strings.Join(s, ",")
 	}
 	var b, c []int
-	for t := range n.batchTargets {
+	for t := range batchSet {
 		b = append(b, idOf(t))
 	}
-	for _, t := range n.currentBatch {
+	for _, t := range current {
 		c = append(c, idOf(t))
 	}
 	e := 0
-	if n.enabled {
+	if enabled {
 		e = 1
 	}
 	return fmt.Sprintf("P[%s] N[%s] B[%s] C[%s] L%d E%d", strings.Join(prod, " "), strings.Join(nameL, " "), ints(b), ints(c),
-		n.batchLevel, e)
+		level, e)
 }
